@@ -13,7 +13,7 @@ def wide(rng, depth):
     n = rng.choice([1, 2, 3, 10, 51, 52, 53, 54, 60, 104, 105, 130])
     ch = []
     for i in range(n):
-        if depth > 0 and rng.random() < 0.08:
+        if depth > 0 and rng.random() < 0.02:
             ch.append(wide(rng, depth - 1))
         elif rng.random() < 0.1:
             ch.append(gen.mk("Group", [gen.mk(rng.choice(gen.OPS), [gen.W("x"), gen.W("y")])]))
@@ -29,7 +29,7 @@ def run(ctx):
     for i in range(ctx.budget(300, 5000)):
         k = rng.random()
         if k < 0.15:
-            cases.append(common.normalize(wide(rng, rng.choice([0, 1, 2, 3]))))
+            cases.append(common.normalize(wide(rng, rng.choice([0, 1, 1, 2]))))
         else:
             cases.append(trees.mixed_tree(ctx, rng, p_parsed=0.5, names=False)[1])
     reqs, exp = [], []
